@@ -7,7 +7,19 @@ ENV = "GOFLAGS=-mod=mod GOPROXY=off GOSUMDB=off GOTOOLCHAIN=local"
 TECH = "contract-based deductive verification: VCs generated from go/ssa of /repo (govc), contracts in contracts_verif.go, discharged by z3/cvc5"
 
 claimed = {
- "C09": dict(design="8 C09", text="Proof: deliver-site / drop-site assertions and loop invariants on the hop-counting receiver are discharged for every TTL 1..255, every word count and every byte value (no bound). Currently under contract: xrespondent receiver; the other receivers are being added.",
+ "C03": dict(design="8 C03", text="Proof (partial): the REQ receiver matches replies on the exact 32-bit id read from the message (no normalisation), only against the id->context map, forgets the id on the first match and stores the reply in that context only; short replies are dropped; cancel forgets the outstanding id and clears request/reply; every access to REQ state happens under the socket lock.",
+             note="The full cross-call monitor invariant (I1-I5 of DESIGN) is not yet proved; id freshness assumed."),
+ "C04": dict(design="8 C04", text="Proof (partial): each transmission hands exactly the retained request (pointer-equal, one extra reference) to one pipe and records it as lastPipe; the retry timer is armed with exactly the retry time and only when it is positive; the timer callback uses the id captured when it was armed; pipe loss re-queues via resendMessage when retries are enabled and cancels otherwise; resendMessage acts only if the id is current, the request retained and not already queued.",
+             note="Real-time and liveness clauses are outside; stale-timer accounting (F8) not yet modelled."),
+ "C05": dict(design="8 C05", text="Proof: REP/RESPONDENT RecvMsg stores a private copy (different array, equal bytes) of the request header and the originating pipe in the context; SendMsg sends only on that pipe's queue with exactly that header, clears the state, and returns the protocol-state error when nothing is pending; a fresh RESPONDENT context starts with nothing pending; raw XREP/XRESPONDENT route by the first header word to exactly that pipe, strip it, drop unknown/short, restore the header on timeout.",
+             note="Device-chain composition is a meta-argument over these per-hop contracts."),
+ "C06": dict(design="8 C06", text="Proof: matches(m) <=> some subscription is a prefix of the body (loop invariant, unbounded); the SUB receiver enqueues to a context iff it matches; after unsubscribe a queued message is kept iff it still matches; RecvMsg returns an owned, unshared message; the PUB loop offers every message to every pipe (no early exit).",
+             note="bytes.HasPrefix contract trusted; channel FIFO trusted."),
+ "C07": dict(design="8 C07", text="Proof: the SURVEYOR receiver routes a response only to the survey registered under the exact id in the message, under the socket lock; cancel unregisters the survey before closing its queue; a new survey gets an id with the top bit set and a 4-byte header carrying it; every pipe is offered each survey; Recv without a current survey returns the protocol-state error before blocking; the expiry timer is armed with exactly the survey time and only when it is positive (defect found and fixed).",
+             note="Real-time clauses outside."),
+ "C08": dict(design="8 C08", text="Proof: raw BUS SendMsg offers the message to every pipe (no early exit) except exactly the one whose id is in the 4-byte header, and clears that header; the raw BUS receiver stamps the arrival pipe id and leaves the body untouched; cooked BUS/STAR wrappers set/strip headers; STAR SendMsg drops header-less messages and otherwise offers to all pipes; what STAR hands to the application is an unshared copy. One known finding (queue resize closes the BUS pipe).",
+             note="Topology-level induction is not machine-checked."),
+ "C09": dict(design="8 C09", text="Proof: deliver-site / drop-site assertions and loop invariants on the hop-counting receiver are discharged for every TTL 1..255, every word count and every byte value (no bound). Under contract: REP, XREP, RESPONDENT, XRESPONDENT (word-count receivers), XPAIR1 and XSTAR (hop-byte receivers).",
              note="Trusts the generator, solvers, append/slice model, interface contract of ProtocolPipe.RecvMsg; struct invariant 1<=ttl<=255 is proved at every Unlock of the package."),
  "C11": dict(design="8 C11", text="Proof (partial): for every field annotated guarded_by/immutable/atomic in the contract files, every access in every function of core, transports and protocols is proved to happen with the lock held (data-race freedom for declared fields); lock order levels and no blocking operation under a lock. 27 genuine unsynchronised accesses of the pinned tree are listed as known findings.",
              note="Foreign-guarded fields (guarded by a lock in another object) are checked against any held lock of that type (ownership assumption); fields marked racy are outside; linearizability and scheduler-dependent deadlocks are outside."),
